@@ -21,7 +21,7 @@ import ast
 from dataclasses import dataclass, field
 from typing import Dict, FrozenSet, List, Optional, Set, Tuple
 
-from sa.core import FuncInfo, Program, dotted, src
+from sa.core import norm_locals, FuncInfo, Program, dotted, src
 
 Taint = Tuple[str, str]  # (kind, origin)
 TS = FrozenSet[Taint]
@@ -100,6 +100,7 @@ class MutationSite:
     origins: Tuple[str, ...]
     chain: Tuple[str, ...]
     kind: str
+    norm: str = ""  # text with the function's local variables replaced by § (key that survives renaming of locals)
 
 
 @dataclass
@@ -157,7 +158,7 @@ class _FuncState:
             return
         text = src(node).splitlines()[0][:110]
         s = MutationSite(self.f.qualname, self.f.module.rel, getattr(node, "lineno", 0), text,
-                         tuple(sorted({o for _, o in lv})), self.chain, kind)
+                         tuple(sorted({o for _, o in lv})), self.chain, kind, norm_locals(text, self.f.node))
         if not any(x.func == s.func and x.text == s.text and x.origins == s.origins for x in self.sites):
             self.sites.append(s)
 
